@@ -17,8 +17,9 @@ Family B: a rich fixed context (every type of the menu and both get-type functio
           all sets of <= KB functions/constants, so that the longest-prefix and ancestor rules
           are exercised with every type present (typedef-first and struct-first orders).
 
-Violations are grouped by signature (kind of mismatch, menu item, what was observed, dump mode)
-and the smallest failing input of each signature is kept as the replay case.
+Violations are grouped by signature (kind of mismatch, menu item, what was observed); the key
+also names the configurations and dump modes in which the signature occurred, and the smallest
+failing input of each signature is kept as the replay case.
 """
 import itertools
 
@@ -144,11 +145,12 @@ class Sigs(object):
     def __init__(self):
         self.t = {}
 
-    def add(self, sig, cfgid, rank, key, desc, case):
+    def add(self, sig, cfgid, dump, rank, key, desc, case):
         e = self.t.get(sig)
         if e is None:
-            e = self.t[sig] = {'cfgs': set(), 'n': 0, 'min': None}
+            e = self.t[sig] = {'cfgs': set(), 'dumps': set(), 'n': 0, 'min': None}
         e['cfgs'].add(cfgid)
+        e['dumps'].add(dump)
         e['n'] += 1
         cand = (rank, key, desc, case)
         if e['min'] is None or cand[:2] < e['min'][:2]:
@@ -158,9 +160,10 @@ class Sigs(object):
         for sig, o in other.items():
             e = self.t.get(sig)
             if e is None:
-                self.t[sig] = {'cfgs': set(o['cfgs']), 'n': o['n'], 'min': o['min']}
+                self.t[sig] = {'cfgs': set(o['cfgs']), 'dumps': set(o['dumps']), 'n': o['n'], 'min': o['min']}
                 continue
             e['cfgs'] |= o['cfgs']
+            e['dumps'] |= o['dumps']
             e['n'] += o['n']
             if o['min'][:2] < e['min'][:2]:
                 e['min'] = o['min']
@@ -198,15 +201,15 @@ def run_node(part, sigs, cfg, ci, items, key_ids, fam, full_orders=True):
                 rank = (len(arr), ci)          # smallest input first, then configuration order
                 case = None
                 for what, subject, detail, msg in bad:
-                    sig = '%s:%s:%s:%s' % (what, ids.get(subject, subject), detail, dump)
+                    sig = '%s:%s:%s' % (what, ids.get(subject, subject), detail)
                     e = sigs.t.get(sig)
                     if e is None or e['min'] is None or (rank, key) < e['min'][:2]:
                         if case is None:
                             case = {'cfg': cfg, 'items': arr, 'dump': dump, 'c': fake.c_of(decls),
                                     'mismatches': [m for _, _, _, m in bad]}
-                        sigs.add(sig, cfg['id'], rank, key, msg, case)
+                        sigs.add(sig, cfg['id'], dump, rank, key, msg, case)
                     else:
-                        sigs.add(sig, cfg['id'], rank, key, msg, None)
+                        sigs.add(sig, cfg['id'], dump, rank, key, msg, None)
     if any_must:
         part.nontrivial('%s/%s/%s' % (fam, ci, '.'.join(str(i) for i in key_ids)))
 
@@ -340,6 +343,7 @@ def run(ctx):
     for sig in sorted(sigs.t):
         e = sigs.t[sig]
         where = 'all' if e['cfgs'] == allcfg else '+'.join(sorted(e['cfgs']))
+        where += '/' + ('any-dump' if e['dumps'] == set(DUMPS) else '+'.join(sorted(e['dumps'])))
         size, key, desc, case = e['min']
         ctx.violation('%s@%s' % (sig, where),
                       '%s  [smallest of %d failing inputs: %s]' % (desc, e['n'], key), case)
